@@ -1,6 +1,9 @@
 import Vata.Proofs.LtsContainer
 /-!
 # `ExplicitLTS` container: the data invariant `DInv` (every history) and the `SmartSet` analysis of `init()` (C16)
+
+`init` is the repaired `init()` (`bwLabels_.assign`, commit 810ab7a9); the lemmas about one set under the rounds of the loop
+(`initSetF_*`) hold for any start value, `initSetF_new` specialises them to the fresh empty set of the repaired code.
 -/
 set_option linter.unusedSimpArgs false
 namespace Vata.LC
@@ -272,25 +275,30 @@ theorem initSetF_count (cnt : Nat → Nat) (s : SSet) (k : Nat) (hk : k ≤ s.ra
     · simp [e]
     · rw [if_neg e]; exact ih (by omega) a (by omega)
 
-theorem initSetF_mem (cnt : Nat → Nat) (s : SSet) (hs : ∀ a ∈ s.keys, 0 < cnt a) (k : Nat) (hk : k ≤ s.range) (a : Nat) :
-    a ∈ (initSetF cnt s k).keys ↔ a ∈ s.keys ∨ (a < k ∧ 0 < cnt a) := by
-  rw [initSetF_keys cnt s hs k hk, List.mem_append, List.mem_filter, List.mem_range]
-  constructor
-  · rintro (h | ⟨h1, h2⟩)
-    · exact Or.inl h
-    · simp at h2; exact Or.inr ⟨h1, h2.1⟩
-  · rintro (h | ⟨h1, h2⟩)
-    · exact Or.inl h
-    · by_cases m : a ∈ s.keys
-      · exact Or.inl m
-      · right; refine ⟨h1, ?_⟩; simp [h2, m]
+theorem count_of_not_mem (s : SSet) (k : Nat) (h : k ∉ s.keys) : s.count k = 0 := by
+  unfold SSet.count
+  have : s.elems.find? (fun e => e.1 == k) = none := by
+    rw [List.find?_eq_none]
+    intro e he hk
+    exact h (List.mem_map.2 ⟨e, he, by simpa using hk⟩)
+  rw [this]
 
-theorem initSetF_nodup (cnt : Nat → Nat) (s : SSet) (hs : ∀ a ∈ s.keys, 0 < cnt a) (hn : s.keys.Nodup)
-    (k : Nat) (hk : k ≤ s.range) : (initSetF cnt s k).keys.Nodup := by
-  rw [initSetF_keys cnt s hs k hk, List.nodup_append]
-  refine ⟨hn, List.Nodup.sublist List.filter_sublist List.nodup_range, fun a ha b hb e => ?_⟩
-  subst e
-  simp [List.mem_filter] at hb
-  exact hb.2.2 ha
+/-- the fresh set `SmartSet(k)` after the rounds `a = 0 … k-1` (what the repaired `init()` builds for every state): never
+out of range, the keys with a positive count in increasing order, every count as asked for -/
+theorem initSetF_new (cnt : Nat → Nat) (k : Nat) :
+    (initSetF cnt (SSet.new k) k).range = k ∧ (initSetF cnt (SSet.new k) k).bad = false ∧
+    (initSetF cnt (SSet.new k) k).keys = (List.range k).filter (fun a => decide (0 < cnt a)) ∧
+    (∀ a, a < k → (initSetF cnt (SSet.new k) k).count a = cnt a) ∧
+    (∀ a, k ≤ a → (initSetF cnt (SSet.new k) k).count a = 0) := by
+  have hk : k ≤ (SSet.new k).range := Nat.le_refl _
+  have hs : ∀ a ∈ (SSet.new k).keys, 0 < cnt a := by intro a ha; cases ha
+  have hkeys : (initSetF cnt (SSet.new k) k).keys = (List.range k).filter (fun a => decide (0 < cnt a)) := by
+    rw [initSetF_keys cnt _ hs k hk]
+    simp [SSet.new, SSet.keys]
+  refine ⟨initSetF_range _ _ _, ?_, hkeys, initSetF_count cnt _ k hk, fun a ha => ?_⟩
+  · rw [initSetF_bad]; simp [SSet.new]
+  · apply count_of_not_mem
+    rw [hkeys, List.mem_filter, List.mem_range]
+    intro h; omega
 
 end Vata.LC
